@@ -1,12 +1,13 @@
 import CbiVerif.PP.CSource
-import CbiVerif.Model.EvalPP
+import CbiVerif.Model.ExpandPP
 import CbiVerif.Model.Assoc
 /-! Single-file end-to-end model: parse_file → DirectiveParser.parse → SourceTree.insert → ParserState.associate.
 
 Tree building and association are NOT re-implemented here: they are the generic, proved
 definitions of `Model/Tree.lean` (`Cond.build`) and `Model/Assoc.lean` (`Cond.visitList`,
 `Cond.model`, `Cond.semCBI`), instantiated with the macro table of `PP/Expand.lean` and with
-expansion + evaluation (`runExpand`, `evaluate`) as the meaning of a controlling expression.
+`condValue` (`Model/ExpandPP.lean`: the total expander `MX.cbiExpand` the C03 theorems are about, then the evaluator
+`Eval.cbiEval` the C02 theorems are about) as the meaning of a controlling expression.  No `partial def` is involved.
 `referenceFile` runs the flat ISO-C machine `Cond.reference` (`Spec/CPreproc.lean`) on the same
 line list.  The node-list level (`analyseNodes` / `referenceNodes`) is shared with the Fortran front
 end (`Model/FCond.lean`); `analyseFile text defs = parseFile text >>= (analyseNodes · defs)`.
@@ -115,11 +116,7 @@ def langOf (nodes : Array PNode) : Cond.Lang Macro Err where
       | .error e => .fail e
     | .undef => .undef n.name
     | _ => .nop
-  cond := fun tbl i =>
-    match runExpand tbl nodes[i]!.toks with
-    | .ok ts => CbiVerif.Eval.evaluatePP ts
-    | .error e => .error e
-    | .sig s => .error (.other s)
+  cond := fun tbl i => condValue tbl nodes[i]!.toks
 
 abbrev MacroWorld := Cond.MWorld Macro Err
 
